@@ -20,7 +20,8 @@ LEVEL = "exploration"
 RULE = ("histories of 1-30 steps on one APIClient over several consecutive sessions from {start_connection, finish_connection, connect (awaited / left pending / "
         "1 ms later) against a device that is ok | unresolvable | refusing | hanging at TCP | sending garbage at hello | rejecting the password | silent; "
         "disconnect() (awaited or left pending, the device acknowledging it or not), disconnect(force=True), cancel of the pending call (connect phase or disconnect), device EOF / RST / DisconnectRequest / garbage, a request whose answer shares one chunk with a DisconnectRequest / garbage, "
-        "a stop callback that reconnects at once from inside the callback, a public API method (rotating over every recipe of the API sweep: commands, "
+        "a stop callback that reconnects at once from inside the callback, disconnect() and connect() back to back in one coroutine, a request whose "
+        "failure handler reconnects at once, a public API method (rotating over every recipe of the API sweep: commands, "
         "subscriptions, requests), advance 1 ms / 1 s / 100 s}; ALL histories up to length 3 (quick) / 4 (thorough) over a "
         "12-symbol alphabet followed by a start probe, plus seeded random histories. Model over the class-boundary event log: attempt = a start/finish call is "
         "in progress, or start succeeded and neither finish nor disconnect was called since; alive = finish succeeded and neither the connection's stop hook "
@@ -159,6 +160,41 @@ def run_history(hist: list[Any]) -> dict[str, Any]:
                         sim.settle()
                     else:
                         skipped += 1
+                elif op == "disconnect+connect":
+                    # one application coroutine: `await client.disconnect(...)` immediately followed by `await client.connect()` - no loop
+                    # iteration in between (anything the library deferred from the old session must not hit the new one)
+                    force = bool(step[1])
+                    apply_world(sim, cfg, "ok")
+                    sim.net.dns["dev.example.com"] = ["10.0.0.1"]
+
+                    async def back_to_back(force: bool = force) -> None:
+                        await cli.disconnect(force=force)
+                        await cli.connect(on_stop=mk_on_stop(), login=True)
+
+                    r = sim.call("connect", back_to_back)
+                    calls.append(r)
+                    wait(r, "done")
+                elif op == "request-then-reconnect-on-error":
+                    # a request is in flight when the device drops the link; the waiter's `except APIConnectionError` handler reconnects at once
+                    conn_now = cli._connection  # noqa: SLF001
+                    live = [c for c in dev.conns if not c.sock.closed]
+                    if conn_now is None or not conn_now.is_connected or not live:
+                        skipped += 1
+                        continue
+                    cfg.handlers["DeviceInfoRequest"] = lambda dc, m: dc.eof(0.0)
+                    apply_world(sim, cfg, "ok")
+                    sim.net.dns["dev.example.com"] = ["10.0.0.1"]
+
+                    async def req_then_reconnect() -> None:
+                        try:
+                            await cli.device_info()
+                        except APIConnectionError:
+                            await cli.start_connection(on_stop=mk_on_stop())
+
+                    r = sim.call("start", req_then_reconnect)
+                    calls.append(r)
+                    wait(r, "done")
+                    cfg.handlers.pop("DeviceInfoRequest", None)
                 elif op == "arm-reconnect":
                     armed["n"] += 1
                 elif op == "disc-answer":
@@ -373,7 +409,7 @@ def judge(hist: list[Any], o: dict[str, Any]) -> tuple[list[tuple[str, str]], di
 ALPHABET: list[Any] = [
     ["start", "ok", "done"], ["start", "ok", "none"], ["start", "refuse", "done"], ["finish", "done"], ["finish", "none"],
     ["disconnect", "done"], ["force"], ["cancel"], ["dev", "eof"], ["api", 0], ["run", 0.001], ["connect", "ok", "done"],
-    ["arm-reconnect"], ["dev", "resp+discreq"], ["disc-answer", False], ["disconnect", "none"],
+    ["arm-reconnect"], ["dev", "resp+discreq"], ["disc-answer", False], ["disconnect", "none"], ["disconnect+connect", False], ["request-then-reconnect-on-error"],
 ]
 
 
@@ -392,8 +428,10 @@ def gen_history(rng: Any) -> list[Any]:
             if rng.random() < 0.35:
                 h.append(["disc-answer", rng.random() < 0.4])
             h.append(["disconnect", rng.choice(["done", "none", "none"])])
-        elif r < 0.65:
+        elif r < 0.62:
             h.append(["force"])
+        elif r < 0.65:
+            h.append(rng.choice([["disconnect+connect", False], ["disconnect+connect", True], ["request-then-reconnect-on-error"]]))
         elif r < 0.70:
             h.append(["cancel"])
         elif r < 0.80:
@@ -454,7 +492,7 @@ def shard(ctx: Ctx) -> None:
 
 
 def exhaustive(tier: str) -> Any:
-    return [f"all histories of length <= {4 if tier == 'thorough' else 3} over the 16-symbol alphabet {ALPHABET}, each followed by a final start probe"]
+    return [f"all histories of length <= {4 if tier == 'thorough' else 3} over the 18-symbol alphabet {ALPHABET}, each followed by a final start probe"]
 
 
 def replay(spec: dict[str, Any]) -> int:
